@@ -343,6 +343,17 @@ def _iterates(it, name):
     return False
 
 
+def _leaves(body):
+    if not body:
+        return False
+    s = body[-1]
+    if isinstance(s, (ast.Return, ast.Raise)):
+        return True
+    if isinstance(s, ast.If):
+        return bool(s.orelse) and _leaves(s.body) and _leaves(s.orelse)
+    return False
+
+
 def _before_use(f, consume_stmt, submit_stmt, why):
     """the consuming statement is unconditional and precedes every return of the function that follows the submit."""
     if block_of(consume_stmt) is None:
@@ -372,6 +383,10 @@ def _before_use(f, consume_stmt, submit_stmt, why):
             if isinstance(a, ast.stmt) and precedes_in_block(a, r):
                 follows = True
                 break
+            if isinstance(a, ast.stmt):
+                blk = block_of(a)
+                if blk is not None and _leaves(blk) and not isinstance(parent(a), (ast.For, ast.While)):
+                    break   # the block holding the submit always returns / raises: nothing after it follows the submit
             a = parent(a)
         if follows:
             rets.append(r)
